@@ -57,7 +57,7 @@ def gen_service_program(rng: Any, *, crash: bool = False) -> dict[str, Any]:
                     "ends_by_itself": None, "started_value": rng.random() < 0.5, "own_teardown": rng.random() < 0.4,
                     "spawn_via": rng.choice(["method", "shortcut"]),
                     # how a callable teardown action is given: plain function, functools.partial, or an object with __call__
-                    "action_form": rng.choice(["function", "function", "partial", "object"]),
+                    "action_form": rng.choice(["function", "function", "partial", "object", "builtin", "method_wrapper"]),
                     "func_form": rng.choice(["function", "function", "partial", "object"]),
                     "start_delay": 0}
             if spec["started_value"] and rng.random() < 0.4:
@@ -237,6 +237,23 @@ class ServiceRun:
                 import functools
 
                 teardown_action = functools.partial(teardown_action)
+            elif form in ("builtin", "method_wrapper") and action in ("sync_callable", "raising_callable"):
+                # callables implemented in C that end up running Python code: a bound method of a builtin (`__module__` is
+                # None) and a method-wrapper (no `__module__` at all) - think of `queue.clear`, `lock.release`, `it.__next__`
+                inner_action = teardown_action
+                if form == "builtin":
+                    class Trigger:
+                        def __lt__(self, other: Any) -> bool:
+                            inner_action()
+                            return False
+
+                    teardown_action = [Trigger(), Trigger()].sort
+                else:
+                    def trigger_gen() -> Any:
+                        inner_action()
+                        yield
+
+                    teardown_action = trigger_gen().__next__
             elif form == "object":
                 inner_action = teardown_action
 
